@@ -1,43 +1,118 @@
-use adsb_deku::Frame;
-use deku::no_std_io::{Read, Seek, SeekFrom};
+//! Correspondence harness: runs the real adsb_deku / rsadsb_common code on one operation per input
+//! line and prints one canonical line per operation. The Lean driver consumes the same lines.
+mod canon;
+#[cfg(feature = "std")]
+mod sched;
+mod track;
 
-pub struct Sched { data: Vec<u8>, pos: u64, sched: Vec<Option<usize>>, i: usize }
-impl Read for Sched {
-    fn read(&mut self, buf: &mut [u8]) -> deku::no_std_io::Result<usize> {
-        let step = if self.i < self.sched.len() { let s = self.sched[self.i]; self.i += 1; s } else { Some(usize::MAX) };
-        match step {
-            None => Err(std::io::Error::from(std::io::ErrorKind::Interrupted)),
-            Some(k) => {
-                let avail = self.data.len().saturating_sub(self.pos as usize);
-                let n = buf.len().min(k).min(avail);
-                buf[..n].copy_from_slice(&self.data[self.pos as usize..self.pos as usize + n]);
-                self.pos += n as u64;
-                Ok(n)
+use adsb_deku::Frame;
+use std::io::{BufRead, Write};
+use std::panic::{catch_unwind, AssertUnwindSafe};
+
+fn esc(s: &str) -> String { s.replace('\\', "\\\\").replace('\n', "\\n") }
+
+fn op_frame(hex: &str) -> String {
+    let Ok(b) = hex::decode(hex) else { return "BADOP".into() };
+    match Frame::from_bytes(&b) {
+        Ok(f) => canon::frame(&f),
+        Err(e) => canon::err(&e),
+    }
+}
+
+fn op_display(hex: &str) -> String {
+    let Ok(b) = hex::decode(hex) else { return "BADOP".into() };
+    match Frame::from_bytes(&b) {
+        Ok(f) => format!("TXT {}", esc(&f.to_string())),
+        Err(e) => canon::err(&e),
+    }
+}
+
+/// velocity: `V <hex>` prints calculate() of a DF17/18 type-19 frame: exact integers + floats
+fn op_velocity(hex: &str) -> String {
+    use adsb_deku::adsb::ME;
+    use adsb_deku::DF;
+    let Ok(b) = hex::decode(hex) else { return "BADOP".into() };
+    match Frame::from_bytes(&b) {
+        Ok(f) => {
+            let me = match &f.df { DF::ADSB(a) => Some(&a.me), DF::TisB { cf, .. } => Some(&cf.me), _ => None };
+            match me {
+                Some(ME::AirborneVelocity(v)) => match v.calculate() {
+                    Some((h, gs, vr)) => format!("VEL some hdg={:.6} gs={:.6} vr={}", h, gs, vr),
+                    None => "VEL none".into(),
+                },
+                _ => "VEL n/a".into(),
             }
         }
+        Err(e) => canon::err(&e),
     }
 }
-impl Seek for Sched {
-    fn seek(&mut self, p: SeekFrom) -> deku::no_std_io::Result<u64> {
-        let np = match p { SeekFrom::Start(x) => x as i64, SeekFrom::Current(d) => self.pos as i64 + d, SeekFrom::End(d) => self.data.len() as i64 + d };
-        if np < 0 { return Err(std::io::Error::from(std::io::ErrorKind::InvalidInput)); }
-        self.pos = np as u64; Ok(self.pos)
+
+/// CPR: `P <hexA> <hexB>` pairs the position payloads of two frames in the given order
+fn op_cpr(a: &str, b: &str) -> String {
+    use adsb_deku::adsb::ME;
+    use adsb_deku::{cpr, Altitude, DF};
+    fn alt(hex: &str) -> Option<Altitude> {
+        let b = hex::decode(hex).ok()?;
+        let f = Frame::from_bytes(&b).ok()?;
+        let me = match f.df { DF::ADSB(a) => a.me, DF::TisB { cf, .. } => cf.me, _ => return None };
+        match me { ME::AirbornePositionBaroAltitude(a) | ME::AirbornePositionGNSSAltitude(a) => Some(a), _ => None }
+    }
+    match (alt(a), alt(b)) {
+        (Some(x), Some(y)) => match cpr::get_position((&x, &y)) {
+            Some(p) => format!("POS some lat={:.12} lon={:.12}", p.latitude, p.longitude),
+            None => "POS none".into(),
+        },
+        _ => "POS n/a".into(),
     }
 }
+
+/// `I <hex6>`: ICAO text round trip
+fn op_icao(hex: &str) -> String {
+    use adsb_deku::ICAO;
+    use std::str::FromStr;
+    let Ok(b) = hex::decode(hex) else { return "BADOP".into() };
+    if b.len() != 3 { return "BADOP".into(); }
+    let i = ICAO([b[0], b[1], b[2]]);
+    let s = i.to_string();
+    match ICAO::from_str(&s) {
+        Ok(j) => format!("ICAO {} {}", s, if j == i { "same" } else { "DIFF" }),
+        Err(_) => format!("ICAO {} parse-error", s),
+    }
+}
+
+fn run_op(line: &str, st: &mut track::State) -> String {
+    let parts: Vec<&str> = line.split_whitespace().collect();
+    match parts.as_slice() {
+        ["F", h] => op_frame(h),
+        ["D", h] => op_display(h),
+        ["V", h] => op_velocity(h),
+        ["P", a, b] => op_cpr(a, b),
+        ["I", h] => op_icao(h),
+        #[cfg(feature = "std")]
+        ["R", h, s] => sched::op_reader(h, s),
+        ["T", rest @ ..] => track::op(st, rest),
+        _ => "BADOP".into(),
+    }
+}
+
 fn main() {
-    let args: Vec<String> = std::env::args().skip(1).collect();
-    let a = &args[0];
-    let b = hex::decode(a).unwrap();
-    match Frame::from_bytes(&b) {
-        Ok(f) => println!("{a}: {f:?}"),
-        Err(e) => println!("{a}: ERR {e:?}"),
-    }
-    if args.len() > 1 {
-        let sched = args[1].split(',').map(|t| if t == "I" { None } else { Some(t.parse().unwrap()) }).collect();
-        let r = Sched { data: b.clone(), pos: 0, sched, i: 0 };
-        match Frame::from_reader(r) {
-            Ok(f) => println!("R {a}: {f:?}"),
-            Err(e) => println!("R {a}: ERR {e:?}"),
-        }
+    std::panic::set_hook(Box::new(|_| {}));
+    let stdin = std::io::stdin();
+    let out = std::io::stdout();
+    let mut out = std::io::BufWriter::new(out.lock());
+    let mut st = track::State::new();
+    for line in stdin.lock().lines() {
+        let line = line.unwrap();
+        let line = line.trim();
+        if line.is_empty() || line.starts_with('#') { continue; }
+        let r = catch_unwind(AssertUnwindSafe(|| run_op(line, &mut st)));
+        let s = match r {
+            Ok(s) => s,
+            Err(p) => {
+                let msg = p.downcast_ref::<String>().cloned().or_else(|| p.downcast_ref::<&str>().map(|s| s.to_string())).unwrap_or_default();
+                format!("PANIC {}", esc(&msg))
+            }
+        };
+        writeln!(out, "{s}").unwrap();
     }
 }
